@@ -1,2 +1,221 @@
+"""C16, resource-identifier half: real FromStr/new/from_components/accessors MIR, `regex` modelled from the pattern in the dump."""
+import z3, re
+from mirsym.dump import program
+from mirsym.interp import Interp, St
+from mirsym import models_std, models_serde, models_regex
+from mirsym.values import BStr, Ptr, Agg, Enum, Panic, Unwind, bv, bstr_eq, bstr_concat, bstr, is_abnormal
+from mirsym.harness import find_fn, sym_str, in_class, model_bytes, Decider, finish_engine, replay
+
+LAZY = [(r'<(?:\w+::)*[A-Z][A-Z0-9_]+ as std::ops::Deref>::deref', models_regex.M_lazy_deref)]
+
+
+def seg_ok(s, i, j, first, rest, allow_empty=False):
+    """bytes i..j (concrete positions) form  first rest*  (or empty if allowed)"""
+    if i == j:
+        return z3.BoolVal(allow_empty)
+    return z3.And(in_class(s.bytes[i], first), *[in_class(s.bytes[p], rest) for p in range(i + 1, j)])
+
+
+def rid_grammar(s):
+    """the specification grammar, written as split points, independent of the regex: -> (accepts, [(cond, (a, b, c))])
+    a/b/c = positions of the 2nd/3rd/4th '.'"""
+    K = len(s.bytes)
+    alts = []
+    LOW, LOWDIG, LDD, LOC = 'a-z', 'a-z0-9', 'a-z0-9-', 'a-zA-Z0-9_.-'
+    for L in range(9, K + 1):
+        for a in range(4, L):
+            for b in range(a + 1, L):
+                for c in range(b + 2, L - 1):
+                    alts.append((z3.And(s.len == bv(L), s.bytes[0] == ord('r'), s.bytes[1] == ord('i'), s.bytes[2] == ord('.'),
+                                        seg_ok(s, 3, a, LOW, LDD), s.bytes[a] == ord('.'),
+                                        seg_ok(s, a + 1, b, LOWDIG, LDD, True), s.bytes[b] == ord('.'),
+                                        seg_ok(s, b + 1, c, LOW, LDD), s.bytes[c] == ord('.'),
+                                        *[in_class(s.bytes[p], LOC) for p in range(c + 1, L)]), (a, b, c)))
+    return z3.Or(*[x for x, _ in alts]) if alts else z3.BoolVal(False), alts
+
+
+def component_ok(s, first, rest, allow_empty=False, plus=False):
+    """whole symbolic string s matches  first rest*  (or `rest+` when plus)"""
+    K = len(s.bytes)
+    conds = []
+    for i, b in enumerate(s.bytes):
+        cls = rest if (i > 0 or plus) else first
+        conds.append(z3.Or(z3.UGE(bv(i), s.len), in_class(b, cls)))
+    nonempty = z3.BoolVal(True) if allow_empty else s.len != 0
+    return z3.And(nonempty, *conds)
+
+
 def run_rid(rep, tier):
-    pass
+    from checks.c16 import report
+    K = 13 if tier == 'quick' else 18
+    rep.bounds['rid'] = f'all valid-UTF-8 byte strings of <= {K} bytes (shortest rid is 9 bytes); from_components: components of <= 3 bytes each'
+    prog = program(['conjure_object'])
+    it = Interp(prog, models_std.MODELS + models_serde.MODELS + models_regex.MODELS + LAZY, models_serde.TMODELS, unwind=K + 4)
+    dec = Decider(rep, it)
+    fn = lambda suffix: [k for k in prog.fns if k.endswith(suffix) and '::resource_identifier::' in k]
+    # ---- the pattern in the dump against the specification grammar (pure solver query, the spike of DESIGN §2)
+    st = St()
+    ptr, s = sym_str(st, 's', K)
+    rex = None
+    for s2, v in models_regex.M_lazy_deref(it, type('C', (), {'self_ty': ('path', 'conjure_object::resource_identifier::PARSE_REGEX', ())})(), [], st.fork()):
+        rex = s2.deref(v)
+    nodes = models_regex.compile_pattern(rex.fields[0])
+    accepts, groups = models_regex.analyse(nodes, s)
+    gram, alts = rid_grammar(s)
+    m = dec.decide('rid:pattern-literal==spec-grammar', st, accepts != gram, bound=K)
+    if m is not None:
+        report(rep, 'rid', 'pattern', model_bytes(m, s), 'the PARSE_REGEX literal and the specification grammar disagree')
+    m = dec.decide('rid:pattern-groups-unambiguous', st, models_regex.ambiguity(nodes, s), bound=K)
+    if m is not None:
+        rep.inconc(f'regex model: capture groups ambiguous for {model_bytes(m, s)!r}; leftmost-first semantics would be needed')
+    # ---- entry paths on real MIR
+    entries = {
+        'from_str': (fn('::from_str')[0], 'direct'),
+        'new': (fn('::new')[0], 'direct'),
+        'from_plain': (find_fn(prog, 'from_plain', ret='ResourceIdentifier'), 'direct'),
+        'deserialize': (fn('::deserialize')[0], 'de'),
+    }
+    acc = {a: fn('::' + a)[0] for a in ('service', 'instance', 'type_', 'locator', 'as_str')}
+    for ename, (fname, kind) in entries.items():
+        st = St()
+        ptr, s = sym_str(st, 's', K)
+        gram, alts = rid_grammar(s)
+        args, tenv = [ptr], {}
+        if kind == 'de':
+            args, tenv = [Agg('StrEventDe', (s,))], {'D': ('path', 'StrEventDe', ())}
+        seen = {'acc': 0, 'rej': 0}
+        npaths = 0
+        for s2, rv in it.run(fname, args, st, tenv):
+            npaths += 1
+            rep.states += 1
+            if isinstance(rv, Unwind):
+                rep.inconc(f'rid {ename}: unwinding assertion failed at {rv.where}')
+                continue
+            if isinstance(rv, Panic):
+                m = dec.decide(f'rid:{ename}:panic', s2, z3.BoolVal(True))
+                report(rep, 'rid', ename, model_bytes(m, s), f'panic: {rv.msg}')
+                continue
+            accepted = it.variant_of(rv, 'Ok')
+            m = dec.decide(f'rid:{ename}:path{npaths}:accept<=>grammar', s2, accepted != gram, bound=K)
+            if m is not None:
+                report(rep, 'rid', ename, model_bytes(m, s), 'acceptance differs from the specification grammar')
+                continue
+            okp = it.payload(rv, 'Ok')
+            if okp is not None and it.feasible(s2, accepted):
+                seen['acc'] += 1
+                if ename in ('from_str', 'deserialize'):
+                    s3 = s2.fork()
+                    s3.pc.append(accepted)
+                    check_components(rep, it, dec, ename, s3, okp.fields[0], s, alts, acc, report)
+            if it.feasible(s2, z3.Not(accepted)):
+                seen['rej'] += 1
+        if not seen['acc'] or not seen['rej']:
+            rep.inconc(f'vacuity: rid {ename} reached accept={seen["acc"]} reject={seen["rej"]}')
+    # ---- from_components: succeeds exactly when each component is individually valid
+    KC = 3 if tier == 'quick' else 4
+    st = St()
+    comps = [sym_str(st, n, KC) for n in ('svc', 'ins', 'typ', 'loc')]
+    LOW, LOWDIG, LDD, LOC = 'a-z', 'a-z0-9', 'a-z0-9-', 'a-zA-Z0-9_.-'
+    want = z3.And(component_ok(comps[0][1], LOW, LDD), component_ok(comps[1][1], LOWDIG, LDD, allow_empty=True),
+                  component_ok(comps[2][1], LOW, LDD), component_ok(comps[3][1], LOC, LOC, plus=True))
+    it2 = Interp(prog, models_std.MODELS + models_serde.MODELS + models_regex.MODELS + LAZY, models_serde.TMODELS, unwind=4 * KC + 12)
+    dec2 = Decider(rep, it2)
+    np_ = 0
+    seen = {'acc': 0, 'rej': 0}
+    for s2, rv in it2.run(fn('::from_components')[0], [p for p, _ in comps], st):
+        np_ += 1
+        rep.states += 1
+        if is_abnormal(rv):
+            m = dec2.decide('rid:from_components:abnormal', s2, z3.BoolVal(True))
+            wit = [model_bytes(m, c) for _, c in comps]
+            if isinstance(rv, Unwind):
+                rep.inconc(f'rid from_components: unwinding assertion at {rv.where}')
+            else:
+                report_components(rep, wit, f'panic: {rv.msg}')
+            continue
+        accepted = it2.variant_of(rv, 'Ok')
+        m = dec2.decide(f'rid:from_components:path{np_}:ok<=>each-component-valid', s2, accepted != want, bound=KC)
+        if m is not None:
+            report_components(rep, [model_bytes(m, c) for _, c in comps], 'from_components success differs from per-component validity')
+            continue
+        okp = it2.payload(rv, 'Ok')
+        if okp is not None and it2.feasible(s2, accepted):
+            seen['acc'] += 1
+            joined = bstr(b'ri.')
+            for i, (_, c) in enumerate(comps):
+                joined = bstr_concat(joined, c)
+                if i < 3:
+                    joined = bstr_concat(joined, bstr(b'.'))
+            stored = okp.fields[0].fields[0]
+            m = dec2.decide(f'rid:from_components:path{np_}:string==joined', s2, z3.And(accepted, z3.Not(bstr_eq(stored, joined))))
+            if m is not None:
+                report_components(rep, [model_bytes(m, c) for _, c in comps], 'from_components stores a different string')
+        if it2.feasible(s2, z3.Not(accepted)):
+            seen['rej'] += 1
+    if not seen['acc'] or not seen['rej']:
+        rep.inconc(f'vacuity: from_components reached accept={seen["acc"]} reject={seen["rej"]}')
+    # ---- reachability twins replayed natively
+    st = St()
+    ptr, s = sym_str(st, 's', K)
+    gram, _ = rid_grammar(s)
+    for tag, cond, want_ok in (('accepted-empty-instance', z3.And(gram, s.len >= 10, s.bytes[5] == ord('.'), s.bytes[4] == ord('.')), True),
+                               ('rejected-uppercase-service', z3.And(z3.Not(gram), s.len >= 9, s.bytes[0] == ord('r'), s.bytes[1] == ord('i'),
+                                                                     s.bytes[2] == ord('.'), s.bytes[3] == ord('A')), False)):
+        m = dec.witness('rid:' + tag, st, cond)
+        b = model_bytes(m, s)
+        r = replay([{'op': 'rid', 'hex': b.hex()}])[0]
+        rep.replayed += 1
+        if any(r[k]['ok'] != want_ok for k in ('from_str', 'new', 'from_plain', 'deserialize')):
+            rep.inconc(f'model mismatch: twin {tag} input {b!r} behaves differently natively: {r}')
+    finish_engine(rep, it)
+    finish_engine(rep, it2)
+    rep.assumptions += ['regex crate: Regex::captures on the anchored pattern read from the dump == bounded matcher over the same pattern (subset: literals, classes, groups, greedy repeats); group boundaries unique (checked by a query)',
+                        'String/str Index<Range*> panics exactly when out of range or off a char boundary; format!("{}") of &str is the string itself']
+    rep.outside.append(f'resource identifiers longer than {K} bytes; the regex engine itself (validated by native replay of every witness)')
+
+
+def check_components(rep, it, dec, ename, st, rid, s, alts, acc, report):
+    """accessors on the accepted value: exactly the grammar's groups, and they re-join to the input"""
+    ridp = st.ref(rid)
+    vals = {}
+    for name, f in acc.items():
+        outs = list(it.run(f, [ridp], st.fork()))
+        for s2, rv in outs:
+            rep.states += 1
+            if isinstance(rv, Panic):
+                m = dec.decide(f'rid:{ename}:{name}:panic', s2, z3.BoolVal(True))
+                if m is not None:
+                    report(rep, 'rid', name, model_bytes(m, s), f'accessor panics: {rv.msg}')
+                continue
+            if isinstance(rv, Unwind):
+                rep.inconc(f'rid accessor {name}: unwind {rv.where}')
+                continue
+            got = s2.deref_all(rv)
+            # expected slice under each split of the grammar
+            bad = []
+            for cond, (a, b, c) in alts:
+                lo, hi = {'service': (3, a), 'instance': (a + 1, b), 'type_': (b + 1, c), 'locator': (c + 1, None), 'as_str': (0, None)}[name]
+                exp_len = (s.len - bv(lo)) if hi is None else bv(hi - lo)
+                eqs = [got.len == exp_len]
+                for k in range(len(got.bytes)):
+                    if lo + k < len(s.bytes):
+                        eqs.append(z3.Or(z3.UGE(bv(k), got.len), got.bytes[k] == s.bytes[lo + k]))
+                bad.append(z3.And(cond, z3.Not(z3.And(*eqs))))
+            m = dec.decide(f'rid:{ename}:{name}==grammar-group', s2, z3.Or(*bad))
+            if m is not None:
+                report(rep, 'rid', name, model_bytes(m, s), f'component {name} is not the grammar\'s group')
+
+
+def report_components(rep, wit, what):
+    op = {'op': 'rid_components', 'service': wit[0].hex(), 'instance': wit[1].hex(), 'type': wit[2].hex(), 'locator': wit[3].hex()}
+    r = replay([op])[0]
+    r2 = replay([op], 'release')[0]
+    rep.replayed += 1
+    pat = [rb'[a-z][a-z0-9\-]*', rb'(?:[a-z0-9][a-z0-9\-]*)?', rb'[a-z][a-z0-9\-]*', rb'[a-zA-Z0-9_\-\.]+']
+    want = all(re.fullmatch(p, w) for p, w in zip(pat, wit))
+    joined = b'ri.' + b'.'.join(wit)
+    bad = ('panic' in r) or r.get('ok') != want or (want and r.get('as_str', '').encode() != joined)
+    if bad and r == r2:
+        rep.violation('C16:rid:from_components', f'from_components{tuple(wit)!r}: {what}; native {r}, per-component validity {want}', {'components_hex': [w.hex() for w in wit], 'native': r})
+    else:
+        rep.inconc(f'model mismatch (rid from_components): {wit!r} ({what}) does not reproduce natively: {r}')
